@@ -44,6 +44,9 @@ DEVIATIONS = {
     'ack_per_key': (['C11'],
                     'a SETTINGS ACK applies one pending value of EVERY key instead of the changes of the one frame it answers '
                     '(ACK of the initial frame applies a later update_settings)'),
+    'stream_id_above_max': (['C09', 'C02'],
+                            'send_headers / push_stream accept a stream id of 2^31 or more (send_headers(2**31+1, ...) on a client): the '
+                            'id is recorded as the highest outbound id and the frame goes out with only its low 31 bits (stream 1)'),
     'content_length_rule_differs': (['C16'],
                                     'the content-length check is not the RFC 7540 8.1.2.6 rule in several cases: a 204/304 response (or a '
                                     'response to a HEAD request whose method was forgotten because the client sent trailers) that declares a '
